@@ -164,7 +164,7 @@ class _DepInv:
 
     def holds(self, ex, st, st0):
         h = st.heap
-        m = st.vars["m"].addr
+        m = _hasher(st.vars)
         deps = st0.vars["dependencies"].addr
         k = st.vars["_k0"].t
         j = z3.Int("j!dep")
@@ -178,6 +178,15 @@ class _DepInv:
         return st.heap.len(st.vars["dependencies"].addr) - st.vars["_k0"].t
 
 
+def _hasher(vs):
+    """the digest object: THE local that holds the object hashlib.sha256() returned (whatever the code calls it)"""
+    from dv.core import StaleContract
+    hs = [v.addr for v in vs.values() if getattr(v, "cls", None) == "set"]
+    if len(set(map(str, hs))) != 1:
+        raise StaleContract("transitive_fingerprint: expected exactly one local digest object, found %d" % len(hs))
+    return hs[0]
+
+
 def ival_of(v):
     return v.t if hasattr(v, "t") else v.addr
 
@@ -185,7 +194,7 @@ def ival_of(v):
 def _tf_post(e):
     if e.result is None:
         return True           # OSError while reading a file: no fingerprint, the cache is not used (a miss)
-    m = e.vars["m"].addr
+    m = _hasher(e.vars)
     deps = e.dependencies
     j = z3.Int("j!post")
     fed = e.h.memset(m)
